@@ -18,7 +18,12 @@ INITIAL_MISSED = {"C01-m1", "C03-m2", "C04-m1", "C05-m1", "C08-m1", "C09-m1", "C
                   "C02-r5m2", "C03-r5m1", "C03-r5m2", "C04-r5m2", "C10-r5m1", "C10-r5m2", "C11-r5m2", "C13-r5m1", "C13-r5m2",
                   "C14-r5m2", "C15-r5m2", "C16-r5m2", "C18-r5m2", "C19-r5m1",
                   # sixth round (four small single-site changes per property)
-                  "C02-r6m1", "C02-r6m4", "C03-r6m1", "C03-r6m4", "C04-r6m2", "C07-r6m1", "C18-r6m3"}
+                  "C02-r6m1", "C02-r6m4", "C03-r6m1", "C03-r6m4", "C04-r6m2", "C07-r6m1", "C18-r6m3",
+                  # seventh round (three changes per property aimed at what harnesses overlook)
+                  "C02-r7m2", "C05-r7m2", "C06-r7m1", "C08-r7m1", "C08-r7m2", "C09-r7m1", "C09-r7m2", "C09-r7m3", "C10-r7m3",
+                  "C11-r7m1", "C11-r7m3", "C12-r7m1", "C12-r7m2", "C12-r7m3", "C13-r7m1", "C13-r7m2", "C13-r7m3", "C14-r7m2",
+                  "C14-r7m3", "C15-r7m2", "C15-r7m3", "C16-r7m1", "C16-r7m2", "C16-r7m3", "C17-r7m2", "C18-r7m1", "C18-r7m2",
+                  "C19-r7m1", "C19-r7m3", "C20-r7m2", "C20-r7m3"}
 # --seed N: run at another VERIF_SEED and only print the verdicts (meta.json untouched) - finds catches that depend on luck
 args = sys.argv[1:]
 seed = None
@@ -33,6 +38,9 @@ for name in sorted(os.listdir(os.path.join(VERIF, "seeded"))):
     if not os.path.exists(mf) or (only and name not in only):
         continue
     meta = json.load(open(mf))
+    if meta.get("superseded"):
+        print(name, "SKIPPED (superseded: see meta.json)", flush=True)
+        continue
     prop = meta["property"]
     t0 = time.time()
     p = subprocess.run([os.path.join(VERIF, "tools/mutant.py"), "check", prop, os.path.join(d, "patch.diff"), "--tier", "quick"] + (["--seed", seed] if seed else []),
